@@ -7,6 +7,8 @@
 #include "kernel_ipc.h"
 #include <pmem.h>
 #include <pshm.h>
+/* access permission of every open is symbolic: ownership, naming, sizes, lock and clean-up must not depend on it */
+#define ND_PERM() (ND_BOOL() ? P_SHM_ACCESS_READWRITE : P_SHM_ACCESS_READONLY)
 #define SHM_SLOT 2
 #define SEM_SLOT 4
 #ifndef PCALLS
@@ -20,7 +22,7 @@ void harness(void) {
   PShm *q0 = NULL;
   if (ND_BOOL()) {               /* the segment already exists, created by Q which stays alive */
     vk_cur = 1;
-    q0 = p_shm_new("a", (unsigned long) ND_RANGE(1, VK_SEGMAX), P_SHM_ACCESS_READWRITE, NULL);
+    q0 = p_shm_new("a", (unsigned long) ND_RANGE(1, VK_SEGMAX), ND_PERM(), NULL);
     VASSERT(q0 != NULL, "prologue create succeeds");
     VASSUME(q0 != NULL);
   }
@@ -32,7 +34,7 @@ void harness(void) {
     int op = ND_RANGE(0, 4);
     if (op == 0) {
       VASSUME(p == NULL);
-      p = p_shm_new("a", (unsigned long) ND_RANGE(1, VK_SEGMAX), P_SHM_ACCESS_READWRITE, NULL);
+      p = p_shm_new("a", (unsigned long) ND_RANGE(1, VK_SEGMAX), ND_PERM(), NULL);
       if (!vk_dead[0]) { VASSERT(p != NULL, "P: new succeeds while alive"); VASSUME(p != NULL); }
     } else if (op == 1) {
       VASSUME(p != NULL && !vk_dead[0] && !locked);
@@ -62,10 +64,10 @@ void harness(void) {
   /* recovery by a fresh process in P's place */
   vk_dead[0] = 0; vk_crash_at[0] = 0; vk_cur = 0;
   unsigned long s1 = (unsigned long) ND_RANGE(1, VK_SEGMAX), s2 = (unsigned long) ND_RANGE(1, VK_SEGMAX);
-  PShm *s = p_shm_new("a", s1, P_SHM_ACCESS_READWRITE, NULL);
+  PShm *s = p_shm_new("a", s1, ND_PERM(), NULL);
   if (s != NULL) { p_shm_take_ownership(s); p_shm_free(s); }
   /* (a first attempt that fails is tolerated as long as creating again works) */
-  PShm *c = p_shm_new("a", s2, P_SHM_ACCESS_READWRITE, NULL);
+  PShm *c = p_shm_new("a", s2, ND_PERM(), NULL);
 #ifdef KF_DEMO_ZERO
   if (left_shm >= 0 && vk_shm_size(left_shm) == 0) { VKF(c != NULL, "recovery after a kill between shm_open and ftruncate: p_shm_new succeeds"); VASSUME(c != NULL); }
 #endif
